@@ -15,30 +15,34 @@ type Dep struct {
 }
 
 type ProcSpec struct {
-	Name          string            `json:"name"`
-	Deps          []Dep             `json:"deps,omitempty"`
-	Restart       string            `json:"restart,omitempty"`
-	MaxRestarts   int               `json:"max_restarts,omitempty"`
-	Backoff       int               `json:"backoff,omitempty"`
-	ExitOnEnd     bool              `json:"exit_on_end,omitempty"`
-	ExitOnSkipped bool              `json:"exit_on_skipped,omitempty"`
-	Disabled      bool              `json:"disabled,omitempty"`
-	Foreground    bool              `json:"foreground,omitempty"`
-	Daemon        bool              `json:"daemon,omitempty"`
-	ReadyProbe    bool              `json:"ready_probe,omitempty"`
-	LiveProbe     bool              `json:"live_probe,omitempty"`
-	ReadyLine     string            `json:"ready_line,omitempty"`
-	BadDir        bool              `json:"bad_dir,omitempty"`
-	WorkingDir    string            `json:"working_dir,omitempty"`
-	Replicas      int               `json:"replicas,omitempty"`
-	Signal        int               `json:"signal,omitempty"`
-	Namespace     string            `json:"namespace,omitempty"`
-	Description   string            `json:"description,omitempty"`
-	Command       string            `json:"command,omitempty"`
-	Entrypoint    []string          `json:"entrypoint,omitempty"` // used instead of command when set
-	Env           []string          `json:"env,omitempty"`
-	LogLocation   string            `json:"log_location,omitempty"`
-	Extra         map[string]string `json:"extra,omitempty"` // raw yaml lines under the process
+	Name          string `json:"name"`
+	Deps          []Dep  `json:"deps,omitempty"`
+	Restart       string `json:"restart,omitempty"`
+	MaxRestarts   int    `json:"max_restarts,omitempty"`
+	Backoff       int    `json:"backoff,omitempty"`
+	ExitOnEnd     bool   `json:"exit_on_end,omitempty"`
+	ExitOnSkipped bool   `json:"exit_on_skipped,omitempty"`
+	Disabled      bool   `json:"disabled,omitempty"`
+	Foreground    bool   `json:"foreground,omitempty"`
+	Daemon        bool   `json:"daemon,omitempty"`
+	ReadyProbe    bool   `json:"ready_probe,omitempty"`
+	LiveProbe     bool   `json:"live_probe,omitempty"`
+	ReadyLine     string `json:"ready_line,omitempty"`
+	BadDir        bool   `json:"bad_dir,omitempty"`
+	WorkingDir    string `json:"working_dir,omitempty"`
+	Replicas      int    `json:"replicas,omitempty"`
+	Signal        int    `json:"signal,omitempty"`
+	// ShutdownCmd: shutdown.command (run for real; "true" leaves the fake command unsignalled, so it
+	// dies whenever the scenario says so). ShutdownTimeout: shutdown.timeout_seconds (real seconds).
+	ShutdownCmd     string            `json:"shutdown_cmd,omitempty"`
+	ShutdownTimeout int               `json:"shutdown_timeout,omitempty"`
+	Namespace       string            `json:"namespace,omitempty"`
+	Description     string            `json:"description,omitempty"`
+	Command         string            `json:"command,omitempty"`
+	Entrypoint      []string          `json:"entrypoint,omitempty"` // used instead of command when set
+	Env             []string          `json:"env,omitempty"`
+	LogLocation     string            `json:"log_location,omitempty"`
+	Extra           map[string]string `json:"extra,omitempty"` // raw yaml lines under the process
 	// Beh[k] is the behaviour of launch k; the last entry repeats.
 	Beh []LaunchBeh `json:"beh,omitempty"`
 }
@@ -220,8 +224,17 @@ func YAML(procs []ProcSpec, strict bool, logLength int, top ...string) string {
 				b.WriteString("      exit_on_skipped: true\n")
 			}
 		}
-		if p.Signal != 0 {
-			fmt.Fprintf(&b, "    shutdown:\n      signal: %d\n", p.Signal)
+		if p.Signal != 0 || p.ShutdownCmd != "" || p.ShutdownTimeout != 0 {
+			b.WriteString("    shutdown:\n")
+			if p.Signal != 0 {
+				fmt.Fprintf(&b, "      signal: %d\n", p.Signal)
+			}
+			if p.ShutdownCmd != "" {
+				fmt.Fprintf(&b, "      command: %q\n", p.ShutdownCmd)
+			}
+			if p.ShutdownTimeout != 0 {
+				fmt.Fprintf(&b, "      timeout_seconds: %d\n", p.ShutdownTimeout)
+			}
 		}
 		if p.ReadyProbe {
 			b.WriteString("    readiness_probe:\n      http_get:\n        host: 127.0.0.1\n        port: 1\n      period_seconds: 1\n      failure_threshold: 3\n")
